@@ -443,7 +443,7 @@ def extra(tier, seed_, col):
         os.makedirs(cdir)
         if os.path.exists(stats_path):
             os.remove(stats_path)
-        env = dict(os.environ, PYTHONPATH=os.path.join(ROOT, '.deps') + ':' + ROOT,
+        env = dict(os.environ, PYTHONPATH=os.path.join(ROOT, '.deps') + ':/verif/.deps:' + ROOT,
                    C19_FUZZ_OUT=out, C19_CORPUS_KIND=corpus_kind)
         t0 = time.time()
         p = subprocess.run([sys.executable, '-m', 'vf.fuzz_c19', '-runs=%d' % runs, '-seed=%d' % (seed_ + 1),
